@@ -478,6 +478,25 @@ func c06Gen(rng *rand.Rand) *metaCase {
 		}
 		feats["exclude-file-in-two-contexts"] = true
 	}
+	// a name that only the including program defines (before or after the directive) is used by entries of the
+	// include file and of the exclude file: both are compared as written, the reference is expanded afterwards
+	if core.Chance(rng, 1, 4) {
+		p.Files.Include["outerlist"] = "alpha\n{{outer}}noisy\ndelta-{{outer}}\n{{outer}}\n"
+		x := core.Pick(rng, "{{outer}}noisy\n", "{{outer}}noisy\n{{outer}}\n", "delta-{{outer}}\nnotthere\n")
+		if core.Chance(rng, 1, 2) {
+			p.Files.Exclude["outerx"] = x
+		} else {
+			p.Files.Include["outerx"] = x
+		}
+		def := "##!> define outer " + core.Pick(rng, "zz", "[0-9]", "one")
+		if core.Chance(rng, 2, 3) {
+			main = append([]string{def}, main...)
+			main = append(main, "##!> include-except outerlist outerx")
+		} else {
+			main = append(main, "##!> include-except outerlist outerx", def)
+		}
+		feats["outer-definition-in-excluded-entry"] = true
+	}
 	// an include file with its own prefix/suffix (so its text carries directive lines) and pairs whose keys end those lines
 	if core.Chance(rng, 1, 4) {
 		p.Files.Include["withaffix"] = "##!^ " + core.Pick(rng, `\b`, "pre") + "\n##!$ " + core.Pick(rng, `\b`, "post") + "\nalphax\nbetae\ngamma>\ndelta<\n"
@@ -497,8 +516,17 @@ func c07Gen(rng *rand.Rand) *metaCase {
 	p := &ra.Program{Lane: "definitions", Files: ra.Files{Include: map[string]string{}, Exclude: map[string]string{}}}
 	feats := map[string]bool{}
 	nd := rng.Intn(7)
-	names := []string{"alpha", "b-2", "c_3", "D4", "e", "f-g_h"}[:min(nd, 6)]
+	// the second and third set hold names that are prefixes of each other (the shorter defined before or after the longer)
+	names := [][]string{{"alpha", "b-2", "c_3", "D4", "e", "f-g_h"}, {"alpha", "b-2", "c_3", "D4", "e", "f-g_h"}, {"sh", "sh-name", "sh-name_2", "s", "D4", "D"}, {"sh-name_2", "sh-name", "sh", "D4", "D", "s"}}[rng.Intn(4)][:min(nd, 6)]
 	nd = len(names)
+	bsAt := -1
+	if core.Chance(rng, 1, 4) {
+		// a name whose references stand directly behind a backslash: substitution is textual there as well
+		names = append(names, "bs")
+		bsAt = nd
+		nd++
+		feats["reference-behind-backslash"] = true
+	}
 	// acyclic reference graph: definition i may refer to definitions with a larger index
 	vals := make([]string, nd)
 	for i := range names {
@@ -511,6 +539,9 @@ func c07Gen(rng *rand.Rand) *metaCase {
 			v = "{{" + names[i+2] + "}}" + v
 		}
 		vals[i] = v
+	}
+	if bsAt >= 0 {
+		vals[bsAt] = core.Pick(rng, ".+", ".x", "-", "d+", "w", "$", "s*")
 	}
 	ref := func() string {
 		if nd > 0 && core.Chance(rng, 3, 4) {
@@ -549,6 +580,14 @@ func c07Gen(rng *rand.Rand) *metaCase {
 			body = append(body, core.Pick(rng, w+"{"+ref()+"}", w+`\{`+ref()+`\}`, "[a-f]{"+ref()+",9}"))
 		default:
 			body = append(body, w+"{"+core.Pick(rng, "2", "1,3")+"}"+ref())
+		}
+	}
+	if bsAt >= 0 {
+		w := g.WordList(1)[0]
+		body = append(body, core.Pick(rng, w+`\{{bs}}`+"z", `www\{{bs}}example`, w+`\\{{bs}}`, `\{{bs}}`+w))
+		if core.Chance(rng, 1, 3) {
+			p.Files.Include["incbs"] = "incbs\\{{bs}}q\n"
+			body = append(body, "##!> include incbs")
 		}
 	}
 	if core.Chance(rng, 1, 3) {
